@@ -319,7 +319,7 @@ def check_urd_ctor(ctx):
     pc = ctx.func(URDH, r"^UniformRealDistribution<RealType>::UniformRealDistribution\(real_type a,\s*real_type b\)", [], name="UniformRealDistribution(a, b)", skip_init_list=True)
     if init_list(pc.head) != [("a_", "a"), ("delta_", "b - a")] or "CELER_EXPECT(a <= b);" not in pc.body:
         raise ExtractionDrift("UniformRealDistribution(a, b) is no longer ': a_(a), delta_(b - a) { CELER_EXPECT(a <= b); }'")
-    bo = ctx.func(O + "GeneratorDistributionData.hh", r"struct GeneratorDistributionData\b.*?explicit CELER_FUNCTION operator bool\(\) const", [], name="GeneratorDistributionData::operator bool")
+    bo = ctx.func(O + "GeneratorDistributionData.hh", r"struct GeneratorDistributionData\b.*?explicit CELER_FUNCTION operator bool\(\) const", [], name="GeneratorDistributionData::operator bool", spans_scope=True)
     if re.sub(r"\s+", " ", bo.body).strip() != "return num_photons > 0 && step_length > 0 && material;":
         raise ExtractionDrift("GeneratorDistributionData::operator bool changed: " + bo.body)
 
@@ -737,7 +737,7 @@ CO_CTOR_RULES = BASE_RULES + [
 
 
 def check_prestep_bool(ctx):
-    bo = ctx.func(O + "OffloadData.hh", r"struct OffloadPreStepData\b.*?explicit CELER_FUNCTION operator bool\(\) const", [], name="OffloadPreStepData::operator bool")
+    bo = ctx.func(O + "OffloadData.hh", r"struct OffloadPreStepData\b.*?explicit CELER_FUNCTION operator bool\(\) const", [], name="OffloadPreStepData::operator bool", spans_scope=True)
     if re.sub(r"\s+", " ", bo.body).strip() != "return material && speed > zero_quantity();":
         raise ExtractionDrift("OffloadPreStepData::operator bool changed: " + bo.body)
 
@@ -822,7 +822,7 @@ def build_scint_offload(ctx):
     text = ctx.read(SO)
     if not re.search(r"poisson_threshold\(\)\s*\{\s*return 10;\s*\}", text):
         raise ExtractionDrift("ScintillationOffload::poisson_threshold() is no longer 10")
-    mb = ctx.func(O + "ScintillationData.hh", r"struct MatScintSpectrumRecord\b.*?explicit CELER_FUNCTION operator bool\(\) const", [], name="MatScintSpectrumRecord::operator bool")
+    mb = ctx.func(O + "ScintillationData.hh", r"struct MatScintSpectrumRecord\b.*?explicit CELER_FUNCTION operator bool\(\) const", [], name="MatScintSpectrumRecord::operator bool", spans_scope=True)
     if re.sub(r"\s+", " ", mb.body).strip() != "return yield_per_energy > 0 && !yield_pdf.empty() && yield_pdf.size() == components.size();":
         raise ExtractionDrift("MatScintSpectrumRecord::operator bool changed")
     cn = ctx.func(ALGO, r"CELER_CONSTEXPR_FUNCTION T clamp_to_nonneg\(T v\) noexcept", [], name="celeritas::clamp_to_nonneg")
